@@ -5,6 +5,6 @@ pub mod run;
 pub mod spec;
 pub mod world;
 
-pub use run::{run_trace, run_trace_with, RunLog};
+pub use run::{run_shared, run_trace, run_trace_with, RunLog};
 pub use spec::*;
 pub use world::{Event, OnWire, PktClass, PktMeta, PublishedRound, RespKind, SendRec, SimSocket, World};
